@@ -325,6 +325,58 @@ if not (re.search(r'i16::MIN as f32 \+ self\.offset', tl) and re.search(r'i16::M
     errors.append('math/lin.rs: clamp bounds are no longer i16::MIN/MAX as f32 -/+ offset')
 want('power_neutral', src('core/motion.rs'), r'pub const POWER_NEUTRAL: MotionValueType = (-?[\d_]+);', 'core/motion.rs Motion::POWER_NEUTRAL')
 
+
+# ---- access shapes: for every J1939Unit handler the schedule theorems speak about, the ordered
+# list of accesses to the shared NetDriverContext as they appear in the handler's body
+# (1 tx_last_message 2 set_tx_last_message 3 rx_last_message 4 set_rx_last_message 5 rx_mark
+#  6 rx_count 7 is_rx_timeout 9 other).  coq/Proofs/Sched_proof.v compares them with the
+# micro-step programs of coq/Model/Sched.v.
+ACC = {'tx_last_message': 1, 'set_tx_last_message': 2, 'rx_last_message': 3, 'set_rx_last_message': 4,
+       'rx_mark': 5, 'rx_count': 6, 'is_rx_timeout': 7}
+
+
+def _strip_comments(t):
+    t = re.sub(r'//[^\n]*', '', t)
+    return re.sub(r'/\*.*?\*/', '', t, flags=re.S)
+
+
+def _fn_body(text, name):
+    m = re.search(r'\bfn\s+%s\s*(?:<[^>]*>)?\s*\(' % name, text)
+    if not m:
+        return None
+    i = text.find('{', m.end())
+    depth = 0
+    for j in range(i, len(text)):
+        if text[j] == '{':
+            depth += 1
+        elif text[j] == '}':
+            depth -= 1
+            if depth == 0:
+                return text[i:j + 1]
+    return None
+
+
+def shape(defname, rel, fn, pattern=r'\bctx\.(\w+)\s*\('):
+    body = _fn_body(_strip_comments(src(rel)), fn)
+    if body is None:
+        errors.append('%s: fn %s not found in %s' % (defname, fn, rel))
+        return
+    accs = [ACC.get(a, 9) for a in re.findall(pattern, body)]
+    defs.append((defname, 'list Z', '[' + '; '.join(str(a) for a in accs) + ']', '%s fn %s: context accesses in order' % (rel, fn)))
+
+
+shape('shape_hcu_tick', 'driver/net/hydraulic.rs', 'tick')
+shape('shape_hcu_trigger', 'driver/net/hydraulic.rs', 'trigger')
+shape('shape_hcu_try_recv', 'driver/net/hydraulic.rs', 'try_recv')
+shape('shape_volvo_tick', 'driver/net/volvo_ems.rs', 'tick')
+shape('shape_volvo_trigger', 'driver/net/volvo_ems.rs', 'trigger')
+shape('shape_volvo_try_recv', 'driver/net/volvo_ems.rs', 'try_recv')
+shape('shape_ems_try_recv', 'driver/net/engine.rs', 'try_recv')
+_ctxacc = r'\b(?:driver|drv)\.(?:context\.)?(tx_last_message|set_tx_last_message|rx_last_message|set_rx_last_message|rx_mark|rx_count|is_rx_timeout)\s*\('
+shape('shape_authority_recv', 'service/authority.rs', 'recv', _ctxacc)
+shape('shape_authority_on_tick', 'service/authority.rs', 'on_tick', _ctxacc)
+shape('shape_authority_on_command', 'service/authority.rs', 'on_command', _ctxacc)
+
 EXTRA = os.path.join(os.path.dirname(os.path.abspath(__file__)), 'rs2v_extra.py')
 if os.path.exists(EXTRA):
     exec(compile(open(EXTRA).read(), EXTRA, 'exec'))
